@@ -14,14 +14,36 @@ Open Scope Z_scope.
 
 (* ------------------------------------------------------------------------------------------ values *)
 
-Inductive value := VNone | VNum (q : Q) | VNaN | VSeq (n : nat).
-Inductive vclass := KNum | KNaN | KSeq.
+(* VNum / VNaN / VInf : carried by a python int or float (numpy.float64 is a float subclass);
+   VNpNum / VNpNaN   : the same number carried by a numeric type that is NOT an instance of int | float
+                       (numpy.int64, numpy.int32, numpy.float32 ... as produced by numpy.arange, a pandas
+                       column or a FITS header): `isinstance(x, int | float)` is False for it, every
+                       comparison, truth test and arithmetic behaves like the number;
+   VInf pos          : float('inf') / float('-inf'), ordered as an extended real. *)
+Inductive value := VNone | VNum (q : Q) | VNaN | VSeq (n : nat) | VInf (pos : bool) | VNpNum (q : Q) | VNpNaN.
+Inductive vclass := KNum | KNaN | KSeq | KInf | KNpNum | KNpNaN.
 
 Definition class_of (x : value) : option vclass :=
-  match x with VNone => None | VNum _ => Some KNum | VNaN => Some KNaN | VSeq _ => Some KSeq end.
+  match x with
+  | VNone => None | VNum _ => Some KNum | VNaN => Some KNaN | VSeq _ => Some KSeq
+  | VInf _ => Some KInf | VNpNum _ => Some KNpNum | VNpNaN => Some KNpNaN
+  end.
 
 Definition vclass_eqb (a b : vclass) : bool :=
-  match a, b with KNum, KNum | KNaN, KNaN | KSeq, KSeq => true | _, _ => false end.
+  match a, b with
+  | KNum, KNum | KNaN, KNaN | KSeq, KSeq | KInf, KInf | KNpNum, KNpNum | KNpNaN, KNpNaN => true
+  | _, _ => false
+  end.
+
+Definition all_classes : list vclass := [KNum; KNaN; KSeq; KInf; KNpNum; KNpNaN].
+
+(* is the number carried by a type outside int | float *)
+Definition is_np (x : value) : bool :=
+  match x with VNpNum _ | VNpNaN => true | _ => false end.
+
+(* the number itself, whatever carries it *)
+Definition core_of (x : value) : value :=
+  match x with VNpNum q => VNum q | VNpNaN => VNaN | other => other end.
 
 (* ------------------------------------------------------------------------------------------ guards *)
 
@@ -36,6 +58,13 @@ Definition atom_holds (a : atom) (q : Q) : bool :=
   | OLe => Qle_bool q (a_bound a)
   | OGt => Qlt_b (a_bound a) q
   | OGe => Qle_bool (a_bound a) q
+  end.
+
+(* +inf is above and -inf below every finite bound *)
+Definition atom_holds_inf (a : atom) (pos : bool) : bool :=
+  match a_op a with
+  | OLt | OLe => negb pos
+  | OGt | OGe => pos
   end.
 
 (* when is the check executed at all *)
@@ -67,21 +96,27 @@ Definition pre_fires (p : precond) (x : value) : bool :=
   | PNotNone, _ => true
   | PTruthy, VNone => false
   | PTruthy, VNum q => negb (Qeq_bool q 0)
+  | PTruthy, VNpNum q => negb (Qeq_bool q 0)
   | PTruthy, VNaN => true
+  | PTruthy, VNpNaN => true
+  | PTruthy, VInf _ => true
   | PTruthy, VSeq n => negb (Nat.eqb n 0)
   | PIsNumber, VNum _ => true
   | PIsNumber, VNaN => true
-  | PIsNumber, _ => false
+  | PIsNumber, VInf _ => true
+  | PIsNumber, _ => false          (* None, sequences, and numbers carried by numpy.int64 & co. *)
   end.
 
 (* true = this statement does not raise.  Comparing None or a list with a number is a TypeError;
-   every ordering comparison with NaN is False. *)
+   every ordering comparison with NaN is False; a numpy scalar compares like the number it carries. *)
 Definition clause_ok (c : clause) (x : value) : bool :=
-  match c, x with
+  match c, core_of x with
   | RaiseUnlessAll ats, VNum q => forallb (fun a => atom_holds a q) ats
   | RaiseUnlessAll ats, VNaN => forallb (fun _ => false) ats
+  | RaiseUnlessAll ats, VInf p => forallb (fun a => atom_holds_inf a p) ats
   | RaiseIfAny ats, VNum q => negb (existsb (fun a => atom_holds a q) ats)
   | RaiseIfAny ats, VNaN => true
+  | RaiseIfAny ats, VInf p => negb (existsb (fun a => atom_holds_inf a p) ats)
   | RaiseUnlessLen n, VSeq m => Nat.eqb n m
   | _, _ => false
   end.
@@ -149,12 +184,22 @@ Definition upper_ok (hi : option bound) (q : Q) : bool :=
   end.
 
 (* the right-hand side of C12_same_limits: is x a value the documentation allows *)
+Definition is_none {A} (o : option A) : bool := match o with None => true | Some _ => false end.
+
 Definition in_range (d : drange) (x : value) : bool :=
-  match d, x with
+  match d, core_of x with
   | DRange lo hi, VNum q => lower_ok lo q && upper_ok hi q
+  | DRange lo hi, VInf true => is_none hi           (* +inf is inside exactly the intervals without upper bound *)
+  | DRange lo hi, VInf false => is_none lo
   | DLen n, VSeq m => Nat.eqb n m
   | _, _ => false
   end.
+
+(* THE STATEMENT, per value: a number carried by int / float (and NaN, +-inf, a sequence) is accepted exactly
+   when it is inside the documented range; whatever carries the number, nonsense is refused (a guard may be
+   strict about the type of an in-range value, it may never let an out-of-range one through). *)
+Definition agrees (acc : bool) (d : drange) (x : value) : bool :=
+  if is_np x then implb acc (in_range d x) else Bool.eqb acc (in_range d x).
 
 (* the values the statement quantifies over for a field of this kind (None is treated separately:
    it means "not specified") *)
@@ -267,28 +312,39 @@ Definition is_len_clause (n : nat) (c : clause) : bool :=
 Definition any_len_clause (c : clause) : bool :=
   match c with RaiseUnlessLen _ => true | _ => false end.
 
-(* SOUND, not complete: true -> for every well-kinded x of class k, accepts g x = in_range d x. *)
+(* SOUND, not complete: true -> for every well-kinded x of class k, `agrees (accepts g x) d x`. *)
+Definition check_num (g : guard) (d : drange) : bool :=
+  match d with
+  | DRange lo hi =>
+      match clauses_hls (g_clauses g) with
+      | None => false
+      | Some G =>
+          let D := doc_hls lo hi in
+          hls_inside G D && hls_inside D G &&
+          match g_pre g with
+          | PTruthy => in_range d (VNum 0) && negb (g_else_reject g)   (* `if x and ...` lets 0 through unchecked *)
+          | _ => true
+          end
+      end
+  | DLen _ =>
+      match g_pre g with
+      | PTruthy => false
+      | _ => existsb any_len_clause (g_clauses g)
+      end
+  end.
+
 Definition check_side (g : guard) (d : drange) (k : vclass) : bool :=
   match k with
   | KNaN => negb (accepts g VNaN)
-  | KNum =>
-      match d with
-      | DRange lo hi =>
-          match clauses_hls (g_clauses g) with
-          | None => false
-          | Some G =>
-              let D := doc_hls lo hi in
-              hls_inside G D && hls_inside D G &&
-              match g_pre g with
-              | PTruthy => in_range d (VNum 0) && negb (g_else_reject g)   (* `if x and ...` lets 0 through unchecked *)
-              | _ => true
-              end
-          end
-      | DLen _ =>
-          match g_pre g with
-          | PTruthy => false
-          | _ => existsb any_len_clause (g_clauses g)
-          end
+  | KNpNaN => negb (accepts g VNpNaN)
+  | KInf => Bool.eqb (accepts g (VInf true)) (in_range d (VInf true)) &&
+            Bool.eqb (accepts g (VInf false)) (in_range d (VInf false))
+  | KNum => check_num g d
+  | KNpNum =>
+      (* `isinstance(x, int | float) and ...` never looks at a numpy scalar: fine only if the else branch refuses *)
+      match g_pre g with
+      | PIsNumber => g_else_reject g
+      | _ => check_num g d
       end
   | KSeq =>
       match d with
@@ -316,7 +372,7 @@ Definition check_row (gt : guard_table) (exc : exceptions) (r : docrow) : bool :
   | Some gs =>
       forallb (fun s =>
         forallb (fun k => excepted exc (d_key r) s k || check_side (pick s gs) (d_range r) k)
-                [KNum; KNaN; KSeq])
+                all_classes)
         [SCtor; SSetter]
   end.
 
@@ -330,7 +386,7 @@ Definition is_discrepancy (docs : list docrow) (gt : guard_table) (w : witness) 
   match w with
   | (f, s, x) =>
       match lookup_doc docs f, guard_at gt f s with
-      | Some r, Some g => well_kinded (d_range r) x && negb (Bool.eqb (accepts g x) (in_range (d_range r) x))
+      | Some r, Some g => well_kinded (d_range r) x && negb (agrees (accepts g x) (d_range r) x)
       | _, _ => false
       end
   end.
@@ -492,6 +548,83 @@ Definition ends_with (suffix s : string) : bool :=
 Definition kind_of_key (k : string) : kind :=
   if ends_with ".readout.times" k || ends_with ".values" k then KRange else KPlain.
 
+(* ------------------------------------------------------------------------------------------ derived objects *)
+
+(* A derived object (Readout.replace with keyword changes, the `times` setter reached by a sweep over
+   'observation.readout.times', a deep copy): the settings named in `changes` get the new value, every other
+   setting that the operation CARRIES keeps the value of the original.  `carried` is regenerated from the
+   source of Readout.replace (Gen_C12.src_replace_carried). *)
+Definition derive (carried : list string) (settings changes : list entry) : list entry :=
+  flat_map (fun k => match lookup k changes with
+                     | Some v => [(k, v)]
+                     | None => match lookup k settings with Some v => [(k, v)] | None => [] end
+                     end) carried.
+
+(* LITERAL: the settings a readout has once it is built (`times_from_file` is another way of giving `times`) *)
+Definition readout_settings : list string := ["times"; "start_time"; "non_destructive"]%string.
+
+Definition readout_key (k : string) : string := ("mode.readout." ++ k)%string.
+
+Definition str_mem (k : string) (l : list string) : bool := existsb (String.eqb k) l.
+
+(* every setting of a readout is carried by replace(), and replace() passes nothing the constructor does not take *)
+Definition carries_all (params carried : list string) : bool :=
+  forallb (fun k => str_mem k carried) readout_settings &&
+  forallb (fun k => str_mem k params) carried.
+
+(* ------------------------------------------------------------------------------------------ what is compared *)
+
+(* LITERAL: per class reachable from a configuration document, the constructor parameters whose loaded value the
+   correspondence reads back and compares with the document (harness/props/c12.py flatten + defaults,
+   harness/drivers/c12.py read_settings) ... *)
+Definition compared_params : list (string * list string) := [
+  ("Exposure", ["readout"; "outputs"; "result_type"; "pipeline_seed"; "working_directory"]);
+  ("Readout", ["times"; "times_from_file"; "start_time"; "non_destructive"]);
+  ("Observation", ["parameters"; "outputs"; "readout"; "mode"; "with_dask"; "result_type"; "pipeline_seed";
+                   "working_directory"]);
+  ("ParameterValues", ["key"; "values"; "boundaries"; "enabled"; "logarithmic"]);
+  ("Calibration", ["target_data_path"; "fitness_function"; "algorithm"; "parameters"; "outputs"; "readout"; "mode";
+                   "result_type"; "result_fit_range"; "result_input_arguments"; "target_fit_range"; "pygmo_seed";
+                   "pipeline_seed"; "num_islands"; "num_evolutions"; "num_best_decisions"; "topology"; "type_islands";
+                   "weights_from_file"; "weights"]);
+  ("Algorithm", ["type"; "generations"; "population_size"; "variant"; "variant_adptv"; "ftol"; "xtol"; "memory"; "cr";
+                 "eta_c"; "m"; "param_m"; "param_s"; "crossover"; "mutation"; "selection"; "nlopt_solver"; "maxtime";
+                 "maxeval"; "xtol_rel"; "xtol_abs"; "ftol_rel"; "ftol_abs"; "stopval"; "replacement"; "nlopt_selection"]);
+  ("ExposureOutputs", ["output_folder"; "custom_dir_name"; "save_data_to_file"; "save_exposure_data"]);
+  ("ObservationOutputs", ["output_folder"; "custom_dir_name"; "save_data_to_file"; "save_observation_data"]);
+  ("CalibrationOutputs", ["output_folder"; "custom_dir_name"; "save_data_to_file"; "save_calibration_data"]);
+  ("ModelFunction", ["func"; "name"; "arguments"; "enabled"]);
+  ("FitnessFunction", ["func"; "arguments"]);
+  ("DetectionPipeline", ["scene_generation"; "photon_collection"; "phasing"; "charge_generation"; "charge_collection";
+                         "charge_transfer"; "charge_measurement"; "signal_transfer"; "readout_electronics";
+                         "data_processing"]);
+  ("Geometry", ["row"; "col"; "total_thickness"; "pixel_vert_size"; "pixel_horz_size"; "pixel_scale"]);
+  ("Characteristics", ["quantum_efficiency"; "charge_to_volt_conversion"; "pre_amplification"; "full_well_capacity";
+                       "adc_bit_resolution"; "adc_voltage_range"]);
+  ("APDCharacteristics", ["roic_gain"; "quantum_efficiency"; "full_well_capacity"; "adc_bit_resolution";
+                          "adc_voltage_range"; "avalanche_gain"; "pixel_reset_voltage"; "common_voltage"]);
+  ("Environment", ["temperature"; "wavelength"]);
+  ("WavelengthHandling", ["cut_on"; "cut_off"; "resolution"])
+]%string.
+
+(* ... and the ones it does NOT compare, each for a stated reason: the custom observation mode (a parameter file) is not
+   generated; a working directory of a calibration would move its target files; a local optimizer is a pygmo object
+   that a YAML document cannot hold. *)
+Definition uncompared_params : list (string * list string) := [
+  ("Observation", ["from_file"; "column_range"]);
+  ("Calibration", ["working_directory"]);
+  ("Algorithm", ["local_optimizer"])
+]%string.
+
+Definition assoc_mem (t : list (string * list string)) (c p : string) : bool :=
+  existsb (fun e => String.eqb (fst e) c && str_mem p (snd e)) t.
+
+(* every constructor parameter of every reachable class (regenerated) is compared or explicitly excluded, and the
+   literal tables name only parameters that exist *)
+Definition params_covered (src compared uncompared : list (string * list string)) : bool :=
+  forallb (fun e => forallb (fun p => assoc_mem compared (fst e) p || assoc_mem uncompared (fst e) p) (snd e)) src &&
+  forallb (fun e => forallb (fun p => assoc_mem src (fst e) p) (snd e)) (compared ++ uncompared).
+
 (* ------------------------------------------------------------------------------------------ correspondence *)
 
 Fixpoint indices_where {A} (p : A -> bool) (l : list A) (i : Z) : list Z :=
@@ -520,7 +653,7 @@ Definition gcase_violates (c : gcase) : bool :=
           | SCtor => negb (Bool.eqb (gc_accepted c) (d_optional r))
           | SSetter => false
           end
-      | x => well_kinded (d_range r) x && negb (Bool.eqb (gc_accepted c) (in_range (d_range r) x))
+      | x => well_kinded (d_range r) x && negb (agrees (gc_accepted c) (d_range r) x)
       end
   end.
 
@@ -571,3 +704,37 @@ Definition s_mismatches (cs : list scase) : list Z :=
 
 (* per case: the positions (in doc ++ applicable defaults order) of the settings that differ *)
 Definition s_details (cs : list scase) : list (list Z) := map scase_bad cs.
+
+(* a derived readout: the operation, the settings of the original (read back from the loaded object), the changes
+   asked for, and the settings of the derived object (None: the operation raised) *)
+Inductive dop := DReplace | DSetter | DCopy
+  | DSweep.   (* Processor.replace({key: value}) on the loaded detector (one point of a parameter sweep): the
+                 settings are ALL the settings of the detector, each of them is carried *)
+Record dcase := DCase { dc_op : dop; dc_settings : list entry; dc_changes : list entry;
+                        dc_observed : option (list entry) }.
+
+Definition dcase_bad (carried : list string) (c : dcase) : bool :=
+  match dc_observed c with
+  | None =>
+      (* the generator only asks for new times that are valid for the start time: that must work; a raise on a
+         change that leaves `times` alone is not judged here (Readout(times=<ndarray>) raises, finding C02-F18) *)
+      has_key (readout_key "times") (dc_changes c) || match dc_op c with DSweep => true | _ => false end
+  | Some obs =>
+      let keys := match dc_op c with
+                  | DSweep => map fst (dc_settings c)
+                  | _ => map readout_key carried
+                  end in
+      match bad_settings (derive keys (dc_settings c) (dc_changes c)) obs with
+      | [] => false
+      | _ => true
+      end
+  end.
+
+Definition is_replace (c : dcase) : bool := match dc_op c with DReplace => true | _ => false end.
+
+(* model (regenerated carried list) vs implementation, for replace() only *)
+Definition d_mismatches (carried : list string) (cs : list dcase) : list Z :=
+  indices_where (fun c => is_replace c && dcase_bad carried c) cs 0.
+(* the specification: every setting of the readout that was not changed is kept, the changed ones are set *)
+Definition d_violations (cs : list dcase) : list Z :=
+  indices_where (dcase_bad readout_settings) cs 0.
